@@ -24,7 +24,27 @@ def r_deser_id(ck: Checker) -> None:
     vp = f.node.args.args[1].arg
     key = f"{vp}['id']"
     hit = f"{REG}.get({key})"
-    leaves = decision_tree(body)
+    # a positive pattern: a node that was looked up in the registry (i.e. existed before this call) is unregistered
+    scan: list[ast.stmt] = list(body)
+    m_ = ck.repo.mod(NODE)
+    for c in [n for n in walk_body(body) if isinstance(n, ast.Call) and isinstance(n.func, ast.Name)]:
+        if ck.repo.has_func(NODE, c.func.id) and ck.repo.is_new_helper(m_, c.func.id):
+            scan += ck.repo.func(NODE, c.func.id).node.body  # a helper of later origin that could not be inlined (e.g. recursive)
+    looked_up = {st.targets[0].id for st in walk_body(scan) if isinstance(st, ast.Assign) and len(st.targets) == 1 and isinstance(st.targets[0], ast.Name)
+                 and ((isinstance(st.value, ast.Call) and isinstance(st.value.func, ast.Attribute) and dotted(st.value.func.value) == REG and st.value.func.attr == "get")
+                      or (isinstance(st.value, ast.Subscript) and dotted(st.value.value) == REG))}
+    for c in [n for n in walk_body(scan) if isinstance(n, ast.Call)]:
+        tgt = None
+        if dotted(c.func) == "_unregister" and c.args and isinstance(c.args[0], ast.Name):
+            tgt = c.args[0].id
+        elif isinstance(c.func, ast.Attribute) and dotted(c.func.value) == REG and c.func.attr == "pop" and c.args and isinstance(c.args[0], ast.Attribute) \
+                and c.args[0].attr == "id" and isinstance(c.args[0].value, ast.Name):
+            tgt = c.args[0].value.id
+        if tgt is not None and tgt in looked_up:
+            ck.violation("R-DESER-ID", f, c, "deserialization removes from the registry only what it registered itself (the provisional entry of the node it builds)",
+                         construct=f"_deserialize: {norm(c)[:50]} unregisters {tgt}, a node found in the registry (registered before this call): live nodes are evicted when loading fails")
+            return
+    leaves = decision_tree(body, try_as_body=True, resolve=True)
     what0 = "deserialization consults the registry under the serialized id first and returns a hit as is"
     k_hit = k_none(hit)
     k_hit_in = f"in({key},{REG})"
@@ -35,9 +55,11 @@ def r_deser_id(ck: Checker) -> None:
             ck.violation("R-DESER-ID", f, f.node, what0, construct="_deserialize does not start with a registry lookup under value['id']",
                          first_test=sorted(first_keys))
             return
-        ck.violation("R-DESER-ID", f, f.node, what0, construct="_deserialize does not start with a registry lookup under value['id']",
-                     first_test=sorted(first_keys))
-        return
+        if not any(REG in k for lf in leaves for k in lf.assign):
+            # no decision of the function consults the registry at all: a node is built whether or not one is registered under the id
+            ck.violation("R-DESER-ID", f, f.node, what0, construct="_deserialize does not start with a registry lookup under value['id']", first_test=sorted(first_keys))
+            return
+        raise Unsupported(f"_deserialize: the first decision {sorted(first_keys)} is not recognised as the registry lookup under value['id']", f.node)
 
     def is_hit(lf) -> bool | None:
         if k_hit in lf.assign:
